@@ -2,7 +2,7 @@
 import vlib
 from props import recfam
 
-INV = ['C12_SupportedInputs', 'C12_WrittenIsNearest', 'C12_FindClosest', 'C12_ExactAndExtremes']
+INV = ['C12_SupportedInputs', 'C12_WrittenIsNearest', 'C12_FindClosest', 'C12_ExactAndExtremes', 'C12_SequenceReceives']
 CONF = ['C12_ConformsCoded']
 
 
@@ -24,13 +24,14 @@ def check(run):
         if vlib.parse_violation(out):
             run.cov['drift'].append(dict(trace=os.path.basename(t), note='FindClosest tie-breaking differs from the model (larger neighbour)'))
             vlib.log('[DRIFT] FindClosest tie-breaking differs from NearestCoded')
-    n = recfam.count_lines(traces)
+    n = recfam.count_lines(traces) // 2     # one Map and one Seq record per map
     run.cov['traces_validated_against_impl'] = n
     return run.finish('model_checking',
                       'PwmMap.tla (definition) model-checked for all maps over a 6-key universe x 3 outputs x requests -3..258; records '
                       'of the real code for ALL maps over a key universe of %d positions (incl. adjacent keys, 0, 255) x outputs {0,128,255} '
                       'plus seeded random full-size / constant / single-entry / non-monotonic maps, each with the written value for every '
-                      'request -50..305 through the controller\'s setPwm on a real hwmon fan; TLC checks every entry against the definition; '
+                      'request -50..305 through the controller\'s setPwm on a real hwmon fan, and a 40-request sequence without resetting the '
+                      'register (fan showing what the previous request or a third party left); TLC checks every entry against the definition; '
                       'non-trivial = maps' % run.pick(6, 8),
-                      dict(evaluations=n * 356, distinct_nontrivial=n, maps=n, requests_per_map=356, exhaustive=True),
+                      dict(evaluations=n * 396, distinct_nontrivial=n, maps=n, requests_per_map=356, exhaustive=True),
                       ['outputs are PWM values (0..255); negative outputs (the code\'s -1 marker) are outside the property\'s domain'])
